@@ -31,7 +31,7 @@ impl Axecutor {
     fn instr_cmovae_r16_rm16(&mut self, i: Instruction) -> Result<(), AxError> {
         debug_assert_eq!(i.code(), Cmovae_r16_rm16);
 
-        if self.state.rflags & FLAG_CF != 0 {
+        if self.state.rflags & FLAG_CF == 0 {
             calculate_r_rm![u16; self; i; |_, s| {
                 s
             }; (set: FLAGS_UNAFFECTED; clear: 0)]
@@ -46,12 +46,16 @@ impl Axecutor {
     fn instr_cmovae_r32_rm32(&mut self, i: Instruction) -> Result<(), AxError> {
         debug_assert_eq!(i.code(), Cmovae_r32_rm32);
 
-        if self.state.rflags & FLAG_CF != 0 {
+        if self.state.rflags & FLAG_CF == 0 {
             calculate_r_rm![u32; self; i; |_, s| {
                 s
             }; (set: FLAGS_UNAFFECTED; clear: 0)]
         } else {
-            Ok(())
+            // A 32-bit destination is zero-extended to 64 bits even when the move does not happen,
+            // and the source operand is still read
+            calculate_r_rm![u32; self; i; |d, _| {
+                d
+            }; (set: FLAGS_UNAFFECTED; clear: 0)]
         }
     }
 
@@ -61,7 +65,7 @@ impl Axecutor {
     fn instr_cmovae_r64_rm64(&mut self, i: Instruction) -> Result<(), AxError> {
         debug_assert_eq!(i.code(), Cmovae_r64_rm64);
 
-        if self.state.rflags & FLAG_CF != 0 {
+        if self.state.rflags & FLAG_CF == 0 {
             calculate_r_rm![u64; self; i; |_, s| {
                 s
             }; (set: FLAGS_UNAFFECTED; clear: 0)]
